@@ -174,6 +174,7 @@ package stgutg
 //@ func RegisterUE
 //@ prop C01
 //@ behavior trace
+//@ call ManageError completes (err error): err == nil || vc.Faulted()
 //@ driver
 //@ assumepre
 //@ nosafety
@@ -192,6 +193,7 @@ package stgutg
 //@ func EstablishPDU
 //@ prop C02
 //@ behavior trace
+//@ call ManageError completes (err error): err == nil || vc.Faulted()
 //@ shape ue.Supi 20
 //@ requires supi: ids.IsImsiSupi(ue.Supi)
 //@ driver
@@ -209,6 +211,7 @@ package stgutg
 //@ func ReleasePDU
 //@ prop C02
 //@ behavior trace
+//@ call ManageError completes (err error): err == nil || vc.Faulted()
 //@ shape ue.Supi 20
 //@ requires supi: ids.IsImsiSupi(ue.Supi)
 //@ driver
@@ -225,6 +228,7 @@ package stgutg
 //@ func ServiceRequest
 //@ prop C02
 //@ behavior trace
+//@ call ManageError completes (err error): err == nil || vc.Faulted()
 //@ shape ue.Supi 20
 //@ requires supi: ids.IsImsiSupi(ue.Supi)
 //@ driver
@@ -240,6 +244,7 @@ package stgutg
 //@ func DeregisterUE
 //@ prop C02
 //@ behavior trace
+//@ call ManageError completes (err error): err == nil || vc.Faulted()
 //@ driver
 //@ assumepre
 //@ nosafety
@@ -252,6 +257,7 @@ package stgutg
 //@ func ManageNGSetup
 //@ prop C01
 //@ behavior trace
+//@ call ManageError completes (err error): err == nil || vc.Faulted()
 //@ driver
 //@ assumepre
 //@ nosafety
